@@ -11,9 +11,206 @@
 //! `park` blocks until `unpark`; if every thread is blocked the scheduler
 //! reports a deadlock.
 
-pub(crate) use shuttle::sync::atomic::{
-  fence, AtomicBool, AtomicPtr, AtomicU8, AtomicU32, AtomicU64, AtomicUsize, Ordering,
-};
+pub(crate) use shuttle::sync::atomic::{fence, Ordering};
+
+// --- atomics -------------------------------------------------------------------------------
+//
+// shuttle places its scheduling point *before* each atomic access, so "publish, then touch the
+// plain memory the publication covers" would run as one indivisible step. The wrappers below add
+// a second scheduling point *after* every access (through a per-OS-thread dummy atomic, never
+// through `self`: after a releasing store the atomic itself may already belong to someone else)
+// and let `compare_exchange_weak` fail spuriously, as the real instruction may.
+
+std::thread_local! {
+  static AFTER_POINT: shuttle::sync::atomic::AtomicBool =
+    const { shuttle::sync::atomic::AtomicBool::new(false) };
+}
+
+#[inline]
+fn after_access() {
+  AFTER_POINT.with(|p| {
+    let _ = p.load(Ordering::SeqCst);
+  });
+}
+
+#[inline]
+fn spurious_failure() -> bool {
+  use shuttle::rand::RngCore;
+  (shuttle::rand::thread_rng().next_u32() & 0xff) < 48
+}
+
+macro_rules! verif_atomic_common {
+  ($name:ident, $inner:ty, $prim:ty) => {
+    #[allow(dead_code)]
+    impl $name {
+      #[inline]
+      pub(crate) const fn new(v: $prim) -> Self {
+        Self(<$inner>::new(v))
+      }
+      #[inline]
+      pub(crate) fn load(&self, order: Ordering) -> $prim {
+        let v = self.0.load(order);
+        after_access();
+        v
+      }
+      #[inline]
+      pub(crate) fn store(&self, v: $prim, order: Ordering) {
+        self.0.store(v, order);
+        after_access();
+      }
+      #[inline]
+      pub(crate) fn swap(&self, v: $prim, order: Ordering) -> $prim {
+        let r = self.0.swap(v, order);
+        after_access();
+        r
+      }
+      #[inline]
+      pub(crate) fn compare_exchange(&self, cur: $prim, new: $prim, s: Ordering, f: Ordering) -> Result<$prim, $prim> {
+        let r = self.0.compare_exchange(cur, new, s, f);
+        after_access();
+        r
+      }
+      #[inline]
+      pub(crate) fn compare_exchange_weak(&self, cur: $prim, new: $prim, s: Ordering, f: Ordering) -> Result<$prim, $prim> {
+        if spurious_failure() {
+          let v = self.0.load(f);
+          after_access();
+          return Err(v);
+        }
+        let r = self.0.compare_exchange(cur, new, s, f);
+        after_access();
+        r
+      }
+      #[inline]
+      pub(crate) fn get_mut(&mut self) -> &mut $prim {
+        self.0.get_mut()
+      }
+      #[inline]
+      pub(crate) fn into_inner(self) -> $prim {
+        self.0.into_inner()
+      }
+    }
+  };
+}
+
+macro_rules! verif_atomic_int {
+  ($name:ident, $prim:ty) => {
+    #[derive(Debug, Default)]
+    pub(crate) struct $name(shuttle::sync::atomic::$name);
+    verif_atomic_common!($name, shuttle::sync::atomic::$name, $prim);
+    #[allow(dead_code)]
+    impl $name {
+      #[inline]
+      pub(crate) fn fetch_add(&self, v: $prim, order: Ordering) -> $prim {
+        let r = self.0.fetch_add(v, order);
+        after_access();
+        r
+      }
+      #[inline]
+      pub(crate) fn fetch_sub(&self, v: $prim, order: Ordering) -> $prim {
+        let r = self.0.fetch_sub(v, order);
+        after_access();
+        r
+      }
+      #[inline]
+      pub(crate) fn fetch_or(&self, v: $prim, order: Ordering) -> $prim {
+        let r = self.0.fetch_or(v, order);
+        after_access();
+        r
+      }
+      #[inline]
+      pub(crate) fn fetch_and(&self, v: $prim, order: Ordering) -> $prim {
+        let r = self.0.fetch_and(v, order);
+        after_access();
+        r
+      }
+      #[inline]
+      pub(crate) fn fetch_max(&self, v: $prim, order: Ordering) -> $prim {
+        let r = self.0.fetch_max(v, order);
+        after_access();
+        r
+      }
+      #[inline]
+      pub(crate) fn fetch_update<F: FnMut($prim) -> Option<$prim>>(&self, s: Ordering, f: Ordering, g: F) -> Result<$prim, $prim> {
+        let r = self.0.fetch_update(s, f, g);
+        after_access();
+        r
+      }
+    }
+  };
+}
+
+verif_atomic_int!(AtomicU8, u8);
+verif_atomic_int!(AtomicU32, u32);
+verif_atomic_int!(AtomicU64, u64);
+verif_atomic_int!(AtomicUsize, usize);
+
+#[derive(Debug, Default)]
+pub(crate) struct AtomicBool(shuttle::sync::atomic::AtomicBool);
+verif_atomic_common!(AtomicBool, shuttle::sync::atomic::AtomicBool, bool);
+#[allow(dead_code)]
+impl AtomicBool {
+  #[inline]
+  pub(crate) fn fetch_or(&self, v: bool, order: Ordering) -> bool {
+    let r = self.0.fetch_or(v, order);
+    after_access();
+    r
+  }
+  #[inline]
+  pub(crate) fn fetch_and(&self, v: bool, order: Ordering) -> bool {
+    let r = self.0.fetch_and(v, order);
+    after_access();
+    r
+  }
+}
+
+#[derive(Debug)]
+pub(crate) struct AtomicPtr<T>(shuttle::sync::atomic::AtomicPtr<T>);
+#[allow(dead_code)]
+impl<T> AtomicPtr<T> {
+  #[inline]
+  pub(crate) const fn new(v: *mut T) -> Self {
+    Self(shuttle::sync::atomic::AtomicPtr::new(v))
+  }
+  #[inline]
+  pub(crate) fn load(&self, order: Ordering) -> *mut T {
+    let v = self.0.load(order);
+    after_access();
+    v
+  }
+  #[inline]
+  pub(crate) fn store(&self, v: *mut T, order: Ordering) {
+    self.0.store(v, order);
+    after_access();
+  }
+  #[inline]
+  pub(crate) fn swap(&self, v: *mut T, order: Ordering) -> *mut T {
+    let r = self.0.swap(v, order);
+    after_access();
+    r
+  }
+  #[inline]
+  pub(crate) fn compare_exchange(&self, cur: *mut T, new: *mut T, s: Ordering, f: Ordering) -> Result<*mut T, *mut T> {
+    let r = self.0.compare_exchange(cur, new, s, f);
+    after_access();
+    r
+  }
+  #[inline]
+  pub(crate) fn compare_exchange_weak(&self, cur: *mut T, new: *mut T, s: Ordering, f: Ordering) -> Result<*mut T, *mut T> {
+    if spurious_failure() {
+      let v = self.0.load(f);
+      after_access();
+      return Err(v);
+    }
+    let r = self.0.compare_exchange(cur, new, s, f);
+    after_access();
+    r
+  }
+  #[inline]
+  pub(crate) fn get_mut(&mut self) -> &mut *mut T {
+    self.0.get_mut()
+  }
+}
 
 pub(crate) use shuttle::hint;
 
